@@ -271,3 +271,7 @@ func VerifC05_BlueGreenExitRunsEveryTask()      { VerifC04_BlueGreenFinalisingSt
 // errorPropagated).
 func VerifC18_CanaryFinalisingWaitsForEveryTask()    { VerifC04_CanaryFinalisingStep() }
 func VerifC18_BlueGreenFinalisingWaitsForEveryTask() { VerifC04_BlueGreenFinalisingStep() }
+
+// The Upgrade sub-state drives the BatchRelease too: for a step without traffic that replaces every stable pod the
+// clean-up in front of the step has run and reported done before (C04.step.cleanupDoneBeforeAllStablePodsReplaced).
+func VerifC04_CanaryUpgradeStep() { c02Canary(1) }
